@@ -128,12 +128,15 @@ CLAIMED = {
             "over random spaces (non-aligned bounds, scales 1e-6..1e6), histories and successive calls.",
             "Trusted: Lean kernel; numpy choice contract; third-party optimisers/surrogates as arbitrary functions.",
             "DESIGN.md §4 C03"),
-    "C16": ("Lean 4 proof (lowest-k selection for every admissible argsort; shape of a best-batch proposal for distinct shocked coordinates) + byte snapshots of the history on all samplers, scripted and real surrogates, best-batch replayed from recorded draws",
+    "C16": ("Lean 4 proof (lowest-k selection for every admissible argsort; shape of a best-batch proposal for distinct shocked coordinates) + byte snapshots of the history on all samplers, scripted and real surrogates, best-batch and the whole particle swarm replayed bit for bit from recorded draws",
             "Proved in Lean: for any pool, predictions and any sorting permutation the selected candidates are the pool rows at k distinct valid indices and every selected "
             "prediction is <= every unselected one; a best-batch row equals the parent with each shocked (distinct) coordinate displaced by size precision steps in the drawn "
             "direction and clipped, other coordinates unchanged. No-modification is decided on the real arrays (byte snapshots, losses +-inf/1e40/float32-overflow, every "
             "sampler); fit/predict arguments and the lowest-k rule are checked with a scripted surrogate and the real RF/XGB/GP; every best-batch proposal is reproduced bit "
-            "for bit by the model from the recorded generator draws.",
+            "for bit by the model from the recorded generator draws. The particle swarm is modelled whole (set-up, update of the bests, step, scaling): in every reachable state "
+            "the global-best index points at a smallest personal-best loss; personal bests are the minimum of the losses in the particle's own slot of the history with the "
+            "matching row; the cross-sampler attractor is the first lowest-loss row; after a step positions lie in the unit cube and the raw proposal within the bounds; the "
+            "real sampler's raw proposal and whole state equal the model's after every call.",
             "Trusted: Lean kernel; np.argsort returns a sorting permutation (validated per case); scipy betabinom range; harness/vp/tape.py.",
             "DESIGN.md §4 C16"),
     "C08": ("Lean 4 proof (weighted-sum form of compute_loss for an arbitrary 1-d loss, coordinate-permutation invariance, zero weight, default 1/D, validation order, ensemble-permutation invariance, sign/zero of Minkowski and MSM cores) + bit-exact stub runs and purity/symmetry checks on every built-in loss",
